@@ -306,6 +306,7 @@ var specs = []*spec{
 		samples: []string{`<data xmlns="urn:xmpp:bob" cid="sha1+8f35fef110ffc5df08d579a50083ff9308fb6242@bob.xmpp.org" max-age="86400" type="image/png">aGVsbG8=</data>`}},
 	{name: "file.Meta", group: "upload-crypto", typ: typeOf(file.Meta{}), byPtr: true,
 		pools: map[string][]any{"Hash": P(crypto.HashOutput{Hash: crypto.SHA256, Out: []byte("abc")}, crypto.HashOutput{Hash: crypto.SHA1, Out: []byte{0xff}},
+			crypto.HashOutput{Hash: crypto.BLAKE2b_256, Out: []byte("abcd")}, // an algorithm whose implementation is not linked into the binary
 			crypto.HashOutput{})}, // (an empty digest is exercised by the crypto.HashOutput spec)
 		// XEP-0446 date is an XEP-0082 date-time written with second precision
 		// (the zone offset is carried)
